@@ -117,9 +117,16 @@ theorem decoders_never_panic (t : Bytes) : decodeAudio t ≠ .panic ∧ decodeVi
 /-- Gating obligation: the translator still translates every rate/name helper it is expected to
 (an untranslatable rewrite of one of them shows up here, not as a silently stale model). -/
 theorem helpers_translated :
-    Gen.Flv.untranslatedHelpers = ["AudioFrameTrait.String (unrecognised body shape)"] ∧
+    Gen.Flv.untranslatedHelpers = [] ∧
     "AudioSamplingRate_ToHz" ∈ Gen.Flv.translatedHelpers ∧
     "AudioSamplingRate_OpusToHz" ∈ Gen.Flv.translatedHelpers := by decide
+
+/-- `AudioFrameTrait.String()` is not a plain switch: the translator EVALUATES it for all 256 receiver values; the
+hand-written `audioTraitString` (flag names joined by `|`) is that table. -/
+theorem audioTraitString_is_source : ∀ v : UInt8,
+    Gen.Flv.AudioFrameTrait_String v.toNat = .ok (audioTraitString v) := by
+  apply forall_u8
+  decide +kernel
 
 /-! ### non-vacuity: concrete inhabitants of the hypotheses; the formerly failing inputs F8/F9 -/
 
